@@ -471,9 +471,11 @@ namespace Pistache::Http::Header
 
     void Date::write(std::ostream& os) const { fullDate_.write(os); }
 
-    void Expect::parseRaw(const char* str, size_t /*len*/)
+    void Expect::parseRaw(const char* str, size_t len)
     {
-        if (std::strcmp(str, "100-continue") == 0)
+        // str is not NUL-terminated when it points into the receive buffer
+        static constexpr char Continue[] = "100-continue";
+        if (len == sizeof(Continue) - 1 && std::memcmp(str, Continue, len) == 0)
         {
             expectation_ = Expectation::Continue;
         }
